@@ -6,6 +6,7 @@ from vmon.checks.common import obs, fail, both_views, random_prefix, apply_prefi
 EXTREMES = "seqs"   # worker re-labels every sixth case to the ends of the legal ranges (gen.extremify)
 SHUFFLE = "seqs"    # worker: every seventh case is built by add_absolute_message in shuffled order
 CANONICAL_ABS = True   # the function under test pairs / merges over the canonically sorted list (oracle.abs_order)
+SPLIT_WAITS = "seqs"   # worker: every fifth case is built from relative messages with rests split into adjacent waits
 PROP = "C15"
 MONITORS = ["merge"]
 INSITU = {"k": "merge or load or composition or tokenisation"}
